@@ -1,5 +1,7 @@
 import SaphyrVerif.Spec.Interp
+import SaphyrVerif.Spec.SubPos
 import SaphyrVerif.Lemmas.C05_Main
+import SaphyrVerif.Lemmas.C05_SubPos
 /-!
 # C05 — typed deserialization is position-faithful; shape mismatches are errors
 
@@ -13,7 +15,9 @@ open SaphyrVerif SaphyrVerif.Scalars SaphyrVerif.Pump SaphyrVerif.De SaphyrVerif
 
 mutual
 /-- types without tuples (tuples read a fixed number of elements, so on surplus elements a successful call
-stops strictly inside the sequence; they are covered by `deser_top_sound`) -/
+stops strictly inside the sequence; they are covered by `deser_top_sound`, `clean_or_deficit`,
+`deser_top_complete_all` and `arity_mismatch_is_error`: only the "no value ⇒ the CALL fails" clause of
+`deser_refines_interp` needs this predicate) -/
 def tupleFree : Ty → Bool
   | .tuple _ => false
   | .option t | .seq t | .newtype t => tupleFree t
@@ -132,6 +136,53 @@ theorem deser_refines_interp (cfg : Cfg) (ty : Ty) (t : ENode) (pre rest : List 
     · exact h
     · rw [hty'] at hd; cases hd
 
+/-- (T) clean_or_deficit — the refinement for ALL types (tuples and tuple variants included): on any stream that
+contains the events of `t` at the cursor, with enough fuel,
+* if the specification assigns a value, deserialization returns exactly that value and leaves the cursor exactly
+  after `t` (completeness needs NO restriction on the type);
+* otherwise it fails, or — possible only for a type that contains a fixed-size position — it returns with the
+  cursor strictly inside `t` (a deficit: surplus elements of a tuple are left unread). It never touches `rest`. -/
+theorem clean_or_deficit (cfg : Cfg) (ty : Ty) (t : ENode) (pre rest : List Ev) (ref : Option Loc)
+    (hk : noKemnKeys t = true) :
+    ∃ n, ∀ fuel, n ≤ fuel →
+      match interp cfg ty t with
+      | some v => deser fuel cfg ty false false (at_ pre t rest ref) = .ok v (after_ pre t rest ref)
+      | none =>
+        (∃ e c, deser fuel cfg ty false false (at_ pre t rest ref) = .err e c) ∨
+        (tupleFree ty = false ∧ ∃ w j, deser fuel cfg ty false false (at_ pre t rest ref) =
+            .ok w (.replay (pre ++ eflatten t ++ rest) j ref) ∧ pre.length < j ∧ j < pre.length + (eflatten t).length) := by
+  have hk' : Lemmas.C05.kfree t = true := by rw [← noKemnKeys_eq]; exact hk
+  have hdrop : (pre ++ eflatten t ++ rest).drop pre.length = eflatten t ++ rest := by
+    rw [List.append_assoc, List.drop_left]
+  obtain ⟨n, hn⟩ := Lemmas.C05.ref_all cfg ty t hk' (pre ++ eflatten t ++ rest) pre.length ref rest hdrop
+  refine ⟨n, fun fuel hf => ?_⟩
+  have := hn fuel hf
+  simp only [at_, after_]
+  cases hi : interp cfg ty t with
+  | some v =>
+    rw [hi] at this
+    exact this
+  | none =>
+    rw [hi] at this
+    rcases this with h | ⟨hd, h⟩
+    · exact Or.inl h
+    · refine Or.inr ⟨?_, h⟩
+      rw [tupleFree_eq]
+      cases htf : Lemmas.C05.tfree ty with
+      | false => rfl
+      | true => rw [htf] at hd; cases hd
+
+/-- (T) the positive half of `clean_or_deficit` on its own: whenever the specification assigns a value, the call
+returns it and stops exactly after the node — for every type. -/
+theorem deser_complete_at (cfg : Cfg) (ty : Ty) (t : ENode) (pre rest : List Ev) (ref : Option Loc)
+    (hk : noKemnKeys t = true) (v : Val) (h : interp cfg ty t = some v) :
+    ∃ n, ∀ fuel, n ≤ fuel → deser fuel cfg ty false false (at_ pre t rest ref) = .ok v (after_ pre t rest ref) := by
+  obtain ⟨n, hn⟩ := clean_or_deficit cfg ty t pre rest ref hk
+  refine ⟨n, fun fuel hf => ?_⟩
+  have := hn fuel hf
+  rw [h] at this
+  exact this
+
 /-- the document-level check of the single-document entry points, on a replay cursor: the value, then the
 cursor must be at the end of the events -/
 def deserTop (fuel : Nat) (cfg : Cfg) (ty : Ty) (evs : List Ev) : Option Val :=
@@ -186,9 +237,74 @@ theorem deser_top_complete (cfg : Cfg) (ty : Ty) (t : ENode) (hty : tupleFree ty
   simp only [at_, after_, List.nil_append, List.append_nil, List.length_nil, Nat.zero_add] at this
   simp only [deserTop, this, Lemmas.C05.peek_at_end]
 
+/-- (T) completeness at document level for ALL types (the `tupleFree` hypothesis of `deser_top_complete` is not
+needed): whenever the specification assigns a value to the tree, the single-document protocol returns exactly
+that value for all large enough fuel. -/
+theorem deser_top_complete_all (cfg : Cfg) (ty : Ty) (t : ENode) (hk : noKemnKeys t = true)
+    (v : Val) (h : interp cfg ty t = some v) : ∃ n, ∀ fuel, n ≤ fuel → deserTop fuel cfg ty (eflatten t) = some v := by
+  obtain ⟨n, hn⟩ := deser_complete_at cfg ty t [] [] none hk v h
+  refine ⟨n, fun fuel hf => ?_⟩
+  have := hn fuel hf
+  simp only [at_, after_, List.nil_append, List.append_nil, List.length_nil, Nat.zero_add] at this
+  simp only [deserTop, this, Lemmas.C05.peek_at_end]
+
+/-- (T) soundness and completeness together, for ALL types: for all large enough fuel the single-document
+protocol on the events of a tree IS the specification (same value, or both reject). -/
+theorem deser_top_eq_interp (cfg : Cfg) (ty : Ty) (t : ENode) (hk : noKemnKeys t = true) :
+    ∃ n, ∀ fuel, n ≤ fuel → deserTop fuel cfg ty (eflatten t) = interp cfg ty t := by
+  cases hi : interp cfg ty t with
+  | some v => exact deser_top_complete_all cfg ty t hk v hi
+  | none =>
+    refine ⟨0, fun fuel _ => ?_⟩
+    cases hd : deserTop fuel cfg ty (eflatten t) with
+    | none => rfl
+    | some w =>
+      have := deser_top_sound cfg ty t hk fuel w hd
+      rw [hi] at this; cases this
+
+/-- (T) deficit_is_fatal (document level): a call that returns with the cursor before the end of the events —
+in particular strictly inside the root node, the second outcome of `clean_or_deficit` — is rejected by the
+single-document protocol. (That an enclosing call never repairs a deficit is `failing_position_is_error`.) -/
+theorem deficit_is_fatal (fuel : Nat) (cfg : Cfg) (ty : Ty) (evs : List Ev) (w : Val) (j : Nat) (ref : Option Loc)
+    (h : deser fuel cfg ty false false (.replay evs 0 none) = .ok w (.replay evs j ref)) (hj : j < evs.length) :
+    deserTop fuel cfg ty evs = none := by
+  obtain ⟨ev, hev⟩ := Lemmas.C05.peek_inside evs ref (j := j) hj
+  simp [deserTop, h, hev]
+
+/-- (F — characterisation of `tupleFree`) what the hypothesis `tupleFree` of `deser_refines_interp` excludes is
+exactly the second outcome of `clean_or_deficit`, and it does occur: `[1, 2, 3]` at a position of type `(i32, i32)`
+has no value, yet the call returns `ok` — with the cursor on the third element, strictly inside the sequence. -/
+theorem tuple_surplus_stops_inside :
+    interp {} (.tuple [.int true 32, .int true 32])
+        (.seq 0 0 none 1 9 [.scalar ['1'] 0 none .plain 0 2, .scalar ['2'] 0 none .plain 0 3, .scalar ['3'] 0 none .plain 0 4])
+      = none ∧
+    deser 100 {} (.tuple [.int true 32, .int true 32]) false false
+        (at_ [] (.seq 0 0 none 1 9 [.scalar ['1'] 0 none .plain 0 2, .scalar ['2'] 0 none .plain 0 3, .scalar ['3'] 0 none .plain 0 4]) [] none)
+      = .ok (.seq [.int 1, .int 2])
+          (.replay (eflatten (.seq 0 0 none 1 9 [.scalar ['1'] 0 none .plain 0 2, .scalar ['2'] 0 none .plain 0 3, .scalar ['3'] 0 none .plain 0 4])) 3 none) := by
+  constructor <;> rfl
+
+/-- (F) hence the conclusion of `deser_refines_interp` ("no value ⇒ the call fails") is false without `tupleFree`:
+for the witness above no fuel bound makes the call fail. -/
+theorem deser_refines_interp_needs_tupleFree :
+    ¬ (∀ (ty : Ty) (t : ENode), noKemnKeys t = true → ∃ n, ∀ fuel, n ≤ fuel →
+        match interp {} ty t with
+        | some v => deser fuel {} ty false false (at_ [] t [] none) = .ok v (after_ [] t [] none)
+        | none => ∃ e c, deser fuel {} ty false false (at_ [] t [] none) = .err e c) := by
+  intro hall
+  obtain ⟨h1, h2⟩ := tuple_surplus_stops_inside
+  obtain ⟨n, hn⟩ := hall _ _ (by rfl : noKemnKeys (.seq 0 0 none 1 9 [.scalar ['1'] 0 none .plain 0 2,
+    .scalar ['2'] 0 none .plain 0 3, .scalar ['3'] 0 none .plain 0 4]) = true)
+  have := hn (max 100 n) (Nat.le_max_right _ _)
+  rw [h1] at this
+  obtain ⟨e, c, he⟩ := this
+  have hbig := Lemmas.C05.deser_mono_le (Nat.le_max_left 100 n) h2
+  rw [hbig] at he
+  cases he
+
 /-- (T) arity_mismatch_is_error (specification level): a tuple position accepts exactly as many nodes as it
 has components -/
-theorem arity_mismatch_is_error (cfg : Cfg) (ts : List Ty) (a tag : Nat) (rt : Option (List Char)) (l el : Loc)
+theorem arity_mismatch_is_error_spec (cfg : Cfg) (ts : List Ty) (a tag : Nat) (rt : Option (List Char)) (l el : Loc)
     (items : List ENode) (h : items.length ≠ ts.length) :
     interp cfg (.tuple ts) (.seq a tag rt l el items) = none := by
   rw [interp]
@@ -219,6 +335,57 @@ theorem kind_mismatch_is_error (cfg : Cfg) (a tag : Nat) (rt : Option (List Char
     interp cfg (.map k v) (.seq a tag rt l el items) = none := by
   refine ⟨?_, ?_, ?_, ?_, ?_⟩ <;> rw [interp]
 
+/-- (T) failing_position_is_error — a failure is never repaired by an enclosing call: if, while the document
+`t` is read at type `ty`, some node `n'` (a sequence, or a non-empty mapping) is read at a Rust position of type
+`ty'` (`Spec.SubPos`: through any nesting of `Vec`, tuple, map key / value incl. merged entries, struct field,
+enum payload in map and tag notation, `Option`, newtype) and that position has no value, then the
+single-document protocol rejects the document — for EVERY fuel. -/
+theorem failing_position_is_error (cfg : Cfg) (ty ty' : Ty) (t n' : ENode) (hk : noKemnKeys t = true)
+    (hpos : SubPos cfg ty t ty' n') (hs : solid n' = true) (hf : interp cfg ty' n' = none) (fuel : Nat) :
+    deserTop fuel cfg ty (eflatten t) = none := by
+  have hi := Lemmas.C05.subPos_interp_none hpos hs hf
+  cases hd : deserTop fuel cfg ty (eflatten t) with
+  | none => rfl
+  | some w =>
+    have := deser_top_sound cfg ty t hk fuel w hd
+    rw [hi] at this; cases this
+
+/-- (T) arity_mismatch_is_error (model level, top level AND nested): a sequence node with `items.length ≠ ts.length`
+items (surplus or missing elements; a sequence node, so not the `!!binary` scalar form) that is read at a tuple
+position of type `(ts…)` ANYWHERE in the document — at the root (`SubPos.here`) or below any nesting of container
+types (`Spec.SubPos`) — makes the single-document protocol fail, for every fuel: the surplus / deficit is never
+repaired by an enclosing call. -/
+theorem arity_mismatch_is_error (cfg : Cfg) (ty : Ty) (t : ENode) (hk : noKemnKeys t = true)
+    (ts : List Ty) (a tag : Nat) (rt : Option (List Char)) (l el : Loc) (items : List ENode)
+    (hpos : SubPos cfg ty t (.tuple ts) (.seq a tag rt l el items)) (h : items.length ≠ ts.length) (fuel : Nat) :
+    deserTop fuel cfg ty (eflatten t) = none :=
+  failing_position_is_error cfg ty (.tuple ts) t _ hk hpos rfl
+    (arity_mismatch_is_error_spec cfg ts a tag rt l el items h) fuel
+
+/-- (T) arity_mismatch_is_error, the top-level instance spelled out: a tuple type on a sequence document of the
+wrong length -/
+theorem arity_mismatch_is_error_top (cfg : Cfg) (ts : List Ty) (a tag : Nat) (rt : Option (List Char)) (l el : Loc)
+    (items : List ENode) (hk : noKemnKeys (.seq a tag rt l el items) = true) (h : items.length ≠ ts.length) (fuel : Nat) :
+    deserTop fuel cfg (.tuple ts) (eflatten (.seq a tag rt l el items)) = none :=
+  arity_mismatch_is_error cfg (.tuple ts) _ hk ts a tag rt l el items (.here _ _) h fuel
+
+/-- (T) the same for the payload of a tuple VARIANT, in both notations `{V: [ … ]}` and `!V [ … ]` (instances of
+`arity_mismatch_is_error` through `SubPos.variantMap` / `SubPos.variantTagged`, spelled out because tuple variants
+are the second kind of fixed-size position) -/
+theorem variant_arity_mismatch_is_error (cfg : Cfg) (name vn : String) (variants : List (String × VTy)) (ts : List Ty)
+    (kv : List Char) (hv : variants.find? (fun p => p.1.toList == kv) = some (vn, .tuple ts))
+    (a a' ka ktag tag : Nat) (krt rt : Option (List Char)) (kst : Style) (l el l' el' kl : Loc) (items : List ENode)
+    (hk : noKemnKeysL items = true) (h : items.length ≠ ts.length) (fuel : Nat) :
+    deserTop fuel cfg (.enum name variants)
+        (eflatten (.map a l el [(.scalar kv ktag krt kst ka kl, .seq a' tag rt l' el' items)])) = none ∧
+    (simpleTaggedEnumName rt tag = some kv →
+      deserTop fuel cfg (.enum name variants) (eflatten (.seq a' tag rt l' el' items)) = none) := by
+  refine ⟨?_, fun htn => ?_⟩
+  · refine arity_mismatch_is_error cfg _ _ ?_ ts a' tag rt l' el' items (.variantMap hv rfl (.here _ _)) h fuel
+    simp only [noKemnKeys, noKemnKeysE, hk, Bool.and_true]
+  · refine arity_mismatch_is_error cfg _ _ ?_ ts a' tagNone none l' el' items (.variantTagged htn hv rfl (.here _ _)) h fuel
+    simp only [noKemnKeys, hk]
+
 /-- (F) the excluded class is a genuine deviation of model and code (known finding
 C05-kemn-one-entry-null-key): for the key `{~: 1}` with value `2` the delivered entry is (None, 1): the
 outer value `2` is dropped and the position of the value is filled from a node inside the key. -/
@@ -231,6 +398,30 @@ theorem kemn_key_takes_inner_value :
 
 -- (E) non-vacuity
 def sc (s : String) (l : Loc) : ENode := .scalar s.toList 0 none .plain 0 l
+
+/-- `{ {~: [1, 2]}: [1, 2, 3] }` -/
+def kemnArityDoc : ENode :=
+  .map 0 1 19 [(.map 0 2 9 [(sc "~" 3, .seq 0 0 none 4 7 [sc "1" 5, sc "2" 6])],
+                .seq 0 0 none 10 15 [sc "1" 11, sc "2" 12, sc "3" 13])]
+
+/-- (F) `arity_mismatch_is_error` is FALSE without `noKemnKeys` — the excluded class (finding
+C05-kemn-one-entry-null-key) also swallows an arity mismatch: in `{ {~: [1, 2]}: [1, 2, 3] }` read as
+`HashMap<Option<String>, (i32, i32)>` the value of the only entry is the 3-element sequence (a sub-position of
+type `(i32, i32)`, so the document has no value), but the call delivers `{None: (1, 2)}`: the value position is
+filled from INSIDE the key and the outer value, with its surplus element, is dropped.  (`de.rs`, pending-entry
+branch of `next_key_seed`: `value_events = events.drain(vs..ve).collect()` overwrites the captured outer value —
+model and code agree; `serde_saphyr::from_str::<HashMap<Option<String>, (i32, i32)>>("{ {~: [1, 2]}: [1, 2, 3] }")`
+returns `Ok({None: (1, 2)})`.) -/
+theorem arity_mismatch_needs_noKemnKeys :
+    noKemnKeys kemnArityDoc = false ∧
+    SubPos {} (.map (.option .string) (.tuple [.int true 32, .int true 32])) kemnArityDoc
+      (.tuple [.int true 32, .int true 32]) (.seq 0 0 none 10 15 [sc "1" 11, sc "2" 12, sc "3" 13]) ∧
+    interp {} (.map (.option .string) (.tuple [.int true 32, .int true 32])) kemnArityDoc = none ∧
+    deserTop 100 {} (.map (.option .string) (.tuple [.int true 32, .int true 32])) (eflatten kemnArityDoc) =
+      some (.map [(.none, .seq [.int 1, .int 2])]) := by
+  refine ⟨by rfl, ?_, by rfl, by rfl⟩
+  exact .mapValue (es := [(.map 0 2 9 [(sc "~" 3, .seq 0 0 none 4 7 [sc "1" 5, sc "2" 6])],
+      .seq 0 0 none 10 15 [sc "1" 11, sc "2" 12, sc "3" 13])]) (by rfl) (List.Mem.head _) (.here _ _)
 example : deserTop 100 {} (.tuple [.int true 32, .int true 32]) (eflatten (.seq 0 0 none 1 9 [sc "1" 2, sc "2" 3])) =
     some (.seq [.int 1, .int 2]) := by rfl
 example : deserTop 100 {} (.tuple [.int true 32, .int true 32]) (eflatten (.seq 0 0 none 1 9 [sc "1" 2, sc "2" 3, sc "3" 4])) = none := by
@@ -239,6 +430,77 @@ example : interp {} (.seq (.enum "E" [("A", .newtype (.int true 32)), ("B", .uni
   rfl
 example : deserTop 100 {} (.seq (.enum "E" [("A", .newtype (.int true 32)), ("B", .unit)])) (eflatten (.seq 0 0 none 1 9 [sc "A" 2, sc "5" 3])) = none := by
   rfl
+
+/-! ### (E) non-vacuity of the all-types theorems: types with fixed-size positions -/
+
+def i32 : Ty := .int true 32
+/-- `Vec<(i32, i32)>` -/
+def pairsTy : Ty := .seq (.tuple [i32, i32])
+/-- `[[1, 2], [3, 4]]` -/
+def pairsDoc : ENode :=
+  .seq 0 0 none 1 9 [.seq 0 0 none 2 5 [sc "1" 3, sc "2" 4], .seq 0 0 none 6 8 [sc "3" 7, sc "4" 77]]
+/-- `[[1, 2], [1, 2, 3]]` -/
+def pairsBad : ENode :=
+  .seq 0 0 none 1 9 [.seq 0 0 none 2 5 [sc "1" 3, sc "2" 4], .seq 0 0 none 6 8 [sc "1" 7, sc "2" 77, sc "3" 78]]
+example : tupleFree pairsTy = false := by rfl
+example : interp {} pairsTy pairsDoc = some (.seq [.seq [.int 1, .int 2], .seq [.int 3, .int 4]]) := by rfl
+/-- completeness applies to a type that is not tuple-free … -/
+example : ∃ n, ∀ fuel, n ≤ fuel →
+    deserTop fuel {} pairsTy (eflatten pairsDoc) = some (.seq [.seq [.int 1, .int 2], .seq [.int 3, .int 4]]) :=
+  deser_top_complete_all {} pairsTy pairsDoc (by rfl) _ (by rfl)
+example : ∃ n, ∀ fuel, n ≤ fuel →
+    deser fuel {} pairsTy false false (at_ [.mapStart 0 0] pairsDoc [.mapEnd 0] none) =
+      .ok (.seq [.seq [.int 1, .int 2], .seq [.int 3, .int 4]]) (after_ [.mapStart 0 0] pairsDoc [.mapEnd 0] none) :=
+  deser_complete_at {} pairsTy pairsDoc _ _ none (by rfl) _ (by rfl)
+/-- … and so does the negative clause, one level down: the second element has a surplus item -/
+example (fuel : Nat) : deserTop fuel {} pairsTy (eflatten pairsBad) = none :=
+  arity_mismatch_is_error {} pairsTy pairsBad (by rfl) [i32, i32] 0 0 none 6 8 [sc "1" 7, sc "2" 77, sc "3" 78]
+    (.seqItem (List.Mem.tail _ (List.Mem.head _)) (.here _ _)) (by decide) fuel
+/-- inner surplus = outer shortage: `[[1, 2, 3]]` into `((i32, i32), i32)` (the seeded defect C05-1) -/
+example (fuel : Nat) : deserTop fuel {} (.tuple [.tuple [i32, i32], i32])
+    (eflatten (.seq 0 0 none 1 9 [.seq 0 0 none 2 8 [sc "1" 3, sc "2" 4, sc "3" 5]])) = none :=
+  arity_mismatch_is_error {} _ _ (by rfl) [i32, i32] 0 0 none 2 8 [sc "1" 3, sc "2" 4, sc "3" 5]
+    (.tupleItem (List.Mem.head _) (.here _ _)) (by decide) fuel
+/-- a missing element, below `Option` and a newtype struct, at the root -/
+example (fuel : Nat) : deserTop fuel {} (.option (.newtype (.tuple [i32, .option i32])))
+    (eflatten (.seq 0 0 none 1 9 [sc "1" 3])) = none :=
+  arity_mismatch_is_error {} _ _ (by rfl) [i32, .option i32] 0 0 none 1 9 [sc "1" 3]
+    (.option (.newtype (.here _ _))) (by decide) fuel
+/-- a surplus element in a MERGED entry read as a struct field (`{<<: {a: [1, 2, 3]}}`, defined below) -/
+example (fuel : Nat) : deserTop fuel {} (.struct [("a", .tuple [i32, i32])] false)
+    (eflatten (.map 0 1 19 [(sc "<<" 2, .map 0 3 9 [(sc "a" 4, .seq 0 0 none 5 8 [sc "1" 6, sc "2" 7, sc "3" 77])])])) = none :=
+  arity_mismatch_is_error {} _ _ (by rfl) [i32, i32] 0 0 none 5 8 [sc "1" 6, sc "2" 7, sc "3" 77]
+    (.field (es := [(sc "a" 4, .seq 0 0 none 5 8 [sc "1" 6, sc "2" 7, sc "3" 77])]) (k := sc "a" 4) (name := ['a'])
+      (fname := "a") (by rfl) (List.Mem.head _) (by rfl) (by rfl) (.here _ _)) (by decide) fuel
+/-- a surplus element in a map KEY and in a tuple-variant payload `{V: [1, 2, 3]}` inside a map value -/
+example (fuel : Nat) : deserTop fuel {} (.map (.tuple [i32, i32]) i32)
+    (eflatten (.map 0 1 9 [(.seq 0 0 none 2 6 [sc "1" 3, sc "2" 4, sc "3" 5], sc "7" 7)])) = none :=
+  arity_mismatch_is_error {} _ _ (by rfl) [i32, i32] 0 0 none 2 6 [sc "1" 3, sc "2" 4, sc "3" 5]
+    (.mapKey (es := [(.seq 0 0 none 2 6 [sc "1" 3, sc "2" 4, sc "3" 5], sc "7" 7)]) (by rfl) (List.Mem.head _) (.here _ _))
+    (by decide) fuel
+example (fuel : Nat) : deserTop fuel {} (.map .string (.enum "E" [("U", .unit), ("V", .tuple [i32, i32])]))
+    (eflatten (.map 0 1 9 [(sc "k" 2, .map 0 3 8 [(sc "V" 4, .seq 0 0 none 5 7 [sc "1" 6])])])) = none :=
+  arity_mismatch_is_error {} _ _ (by rfl) [i32, i32] 0 0 none 5 7 [sc "1" 6]
+    (.mapValue (es := [(sc "k" 2, .map 0 3 8 [(sc "V" 4, .seq 0 0 none 5 7 [sc "1" 6])])]) (by rfl) (List.Mem.head _)
+      (.variantMap (vn := "V") (vty := .tuple [i32, i32]) (by rfl) rfl (.here _ _)))
+    (by decide) fuel
+/-- the hypotheses of `variant_arity_mismatch_is_error` are satisfiable (tag notation `!V [1]`) -/
+example (fuel : Nat) : deserTop fuel {} (.enum "E" [("U", .unit), ("V", .tuple [i32, i32])])
+    (eflatten (.seq 0 tagOther (some "!V".toList) 5 7 [sc "1" 6])) = none :=
+  (variant_arity_mismatch_is_error {} "E" "V" [("U", .unit), ("V", .tuple [i32, i32])] [i32, i32] ['V'] (by rfl)
+    0 0 0 0 tagOther none (some "!V".toList) .plain 0 0 5 7 0 [sc "1" 6] (by rfl) (by decide) fuel).2 (by rfl)
+/-- `failing_position_is_error` on a failure that is not an arity mismatch: a mapping where `Vec<i32>` is expected,
+two levels down -/
+example (fuel : Nat) : deserTop fuel {} (.seq (.option (.seq i32)))
+    (eflatten (.seq 0 0 none 1 9 [.map 0 2 8 [(sc "a" 3, sc "1" 4)]])) = none :=
+  failing_position_is_error {} _ (.seq i32) _ (.map 0 2 8 [(sc "a" 3, sc "1" 4)]) (by rfl)
+    (.seqItem (List.Mem.head _) (.option (.here _ _))) rfl (by rfl) fuel
+/-- `deser_top_eq_interp` on an accepted and on a rejected document -/
+example : ∃ n, ∀ fuel, n ≤ fuel → deserTop fuel {} pairsTy (eflatten pairsBad) = interp {} pairsTy pairsBad :=
+  deser_top_eq_interp {} pairsTy pairsBad (by rfl)
+/-- `deficit_is_fatal` on the witness of `tuple_surplus_stops_inside` -/
+example : deserTop 100 {} (.tuple [i32, i32]) (eflatten (.seq 0 0 none 1 9 [sc "1" 2, sc "2" 3, sc "3" 4])) = none :=
+  deficit_is_fatal 100 {} _ _ (.seq [.int 1, .int 2]) 3 none (by rfl) (by decide)
 
 /-! ### regression examples for the findings made while proving C05
 
@@ -290,13 +552,34 @@ induction on the nesting depth of the node and the size of the type; the map acc
 inside a node is never repaired by an enclosing call (`C05_Weak*`: no call moves the cursor below its starting
 nesting depth); `deser_top_sound` for arbitrary fuel uses the fuel monotonicity of success (`C05_Mono`).
 Imported statements used: `Props.C04.capture_node_exact`, `Props.C04.skip_one_node_exact`,
-`Props.C03.collect_entries_spec` (through `deser_refines_interp`, `deser_top_sound`, `deser_top_complete`). -/
+`Props.C03.collect_entries_spec` (through `deser_refines_interp`, `deser_top_sound`, `deser_top_complete`).
+
+The `tupleFree` hypothesis: `ref_all` already yields, for EVERY type, "value expected ⇒ exactly that value, cursor
+exactly after the node"; the type restriction is needed only for the clause "no value expected ⇒ the call fails"
+(`tuple_surplus_stops_inside`, `deser_refines_interp_needs_tupleFree`). Hence `clean_or_deficit`,
+`deser_top_complete_all`, `deser_top_eq_interp` carry no type restriction. The negative clause
+(`failing_position_is_error`, `arity_mismatch_is_error`, top level and nested) is `deser_top_sound` composed with
+the specification-level fact that a failing sub-position (`Spec.SubPos`, Spec/SubPos.lean) makes every enclosing
+position fail (`Lemmas.C05.subPos_interp_none`, Lemmas/C05_SubPos.lean); it needs `noKemnKeys`
+(`arity_mismatch_needs_noKemnKeys`). -/
 #print axioms deser_refines_interp
 #print axioms deser_top_sound
 #print axioms deser_top_complete
+#print axioms clean_or_deficit
+#print axioms deser_complete_at
+#print axioms deser_top_complete_all
+#print axioms deser_top_eq_interp
+#print axioms deficit_is_fatal
+#print axioms tuple_surplus_stops_inside
+#print axioms deser_refines_interp_needs_tupleFree
+#print axioms arity_mismatch_is_error_spec
+#print axioms failing_position_is_error
 #print axioms arity_mismatch_is_error
+#print axioms arity_mismatch_is_error_top
+#print axioms variant_arity_mismatch_is_error
 #print axioms unknown_variant_is_error
 #print axioms kind_mismatch_is_error
 #print axioms kemn_key_takes_inner_value
+#print axioms arity_mismatch_needs_noKemnKeys
 
 end SaphyrVerif.Props.C05
